@@ -35,6 +35,7 @@ type Ledger struct {
 	Weights map[string]int
 	Triple  bool // C13: run every step on replicas too
 	GasSweep  bool // C06/C16: sweep GasProvided over the boundary points of every call
+	MCRes     string // replay of a model behaviour: the result the specification predicted for the current step
 	Alloc     bool // C11: measure the bytes allocated by every call
 	FaultMode bool // C17: enumerate dependency faults of every successful step
 }
@@ -197,6 +198,9 @@ func (d *Ledger) recordMid(kind string, shard int, c *world.Call, mid int, dup b
 	ev := d.P.EventOf(kind, shard, orig, r, mid, dup)
 	if ev.X == nil {
 		ev.X = map[string]interface{}{}
+	}
+	if d.MCRes != "" {
+		ev.X["mcres"] = d.MCRes
 	}
 	if d.Alloc {
 		ev.X["allocok"] = a1-a0 <= bound
